@@ -115,6 +115,42 @@ def run(tier, work, replay=None):
                 rec = recs.get(it["name"]) or {}
                 v.sample({"operation": gamma.render_op(it["name"], it["op"]), "abstract": it["op"],
                           "projected_model": rec.get("model"), "responses_driven": len(rec.get("runs", []))})
+    # ---- literal conditions (@include(if: false), @skip(if: true), ...): not part of the TLC-enumerated universe (its
+    #      conditions are variables); the responses the reference server gives must be accepted and preserved all the same
+    def F(name, cond="none", sels=(), alias="-"):
+        return {"k": "f", "name": name, "alias": alias, "cond": cond, "sels": list(sels)}
+
+    def I(on, cond, sels):
+        return {"k": "i", "on": on, "cond": cond, "sels": list(sels)}
+    lit_ops = [{"root": "a", "sels": [F("id"), F("name", "include_false")]}, {"root": "a", "sels": [F("id"), F("rank", "skip_true")]},
+               {"root": "a", "sels": [F("id"), F("a1", "include_true")]}, {"root": "a", "sels": [F("id"), F("tags", "skip_false")]},
+               {"root": "a", "sels": [F("id"), I("A", "include_false", [F("a1"), F("tags")])]},
+               {"root": "j", "sels": [F("id"), I("-", "skip_true", [F("name")])]},
+               {"root": "a", "sels": [F("id"), F("friend", "include_false", [F("id")])]},
+               {"root": "d", "sels": [F("d1", "include_false"), F("id", "skip_false")]},
+               {"root": "aList", "sels": [F("a1", "skip_true"), F("rank", "include_true")]}]
+    lit_items = rc.name_ops(lit_ops, start=90000)
+    lgood, lfailed = rc.generate_batches(work, lit_items, {"async_client": False}, tag="lit_")
+    for it, r in lfailed:
+        v.violation({"variant": "sync_plain_snake", "literal_condition": True, "root": it["op"]["root"]}, f"gen_crash:{r['exc_class']}",
+                    {"operation": gamma.render_op(it["name"], it["op"]), "message": r["exc_msg"]})
+    lrecs = rc.drive_batches(lgood, is_async=False, quick=True, corrupt=False, work=work, options={"async_client": False})
+    for it in lit_items:
+        rec = lrecs.get(it["name"])
+        if rec is None:
+            continue
+        if rec.get("error"):
+            v.violation({"variant": "sync_plain_snake", "literal_condition": True}, "load_error:" + rec["error"].split(":")[0],
+                        {"operation": gamma.render_op(it["name"], it["op"]), "error": rec["error"]})
+            continue
+        total_runs += len(rec["runs"])
+        for run in rec["runs"]:
+            if not run.get("accepted") or not run.get("dump_equal", True):
+                v.violation({"variant": "sync_plain_snake", "literal_condition": True, "root": it["op"]["root"]},
+                            "literal_condition:" + ("rejected" if not run.get("accepted") else "not_preserved"),
+                            {"operation": gamma.render_op(it["name"], it["op"]), "run": run})
+                break
+    v.cov["literal_condition_operations"] = len(lit_items)
     v.cov["evaluations"] = total_runs
     v.cov["traces_validated_against_impl"] = validated
     v.cov["distinct_nontrivial"] = len([1 for op in ops if gamma.nontrivial(op)])
